@@ -1,7 +1,1264 @@
-//! C18 — not built yet (stub).
+//! C18 — A lookup succeeds if any configured server can answer, within the deadline.
+//!
+//! The real `NameServerPool::from_config` runs on the discrete-event runtime (`SimRt`, virtual
+//! time) against a scripted internet: 1..4 servers, each with a behaviour on UDP and TCP, a
+//! latency, a protocol configuration and a trust flag for negative answers. Busy back-pressure is
+//! injected at the `ConnectionProvider` boundary (a thin wrapper around the stock provider that
+//! answers the first n sends to a server with `NetError::Busy`; everything else goes through the
+//! unmodified `DnsExchange<SimRt>` and the simulated sockets).
+//!
+//! Oracles (none shares code with hickory; replies are read with refm::dnswire):
+//!  (i)   validity  — an Ok result is the reply of a contacted server whose behaviour can produce
+//!        it for the caller's question; never a TC=1 body; NXDOMAIN only if an NXDOMAIN server was
+//!        contacted (RFC 1035 §7.3, RFC 2308 §2.1).
+//!  (ii)  liveness  — only where it does not depend on the pool's ordering: every faulty server
+//!        fails fast and a healthy one exists and the worst-case serial cost fits the budget ⇒ Ok
+//!        (or the NXDOMAIN of a server that is trusted for negatives); TC on UDP ⇒ the log shows a
+//!        TCP exchange with that server (RFC 7766 §5: retry over TCP on truncation).
+//!  (iii) deadline  — virtual completion time − start ≤ ResolverOpts::timeout.
+//!  (iv)  de-duplication — k concurrent identical lookups produce exactly the upstream exchanges
+//!        of one, all k get the same result, and a later identical lookup goes upstream again.
 
-use crate::core::Check;
+use std::cell::RefCell;
+use std::collections::{BTreeMap, VecDeque};
+use std::future::Future;
+use std::io;
+use std::net::{IpAddr, Ipv4Addr, SocketAddr};
+use std::pin::Pin;
+use std::rc::Rc;
+use std::sync::{Arc, Mutex};
+use std::time::Duration;
+
+use futures_util::stream::{Stream, StreamExt};
+use hickory_net::runtime::Time;
+use hickory_net::xfer::{DnsExchange, DnsHandle};
+use hickory_net::{DnsError, NetError, NoRecords};
+use hickory_proto::op::{DnsRequest, DnsRequestOptions, DnsResponse, Query, ResponseCode};
+use hickory_proto::rr::{Name, RecordType};
+use hickory_resolver::config::{ConnectionConfig, NameServerConfig, ProtocolConfig, ResolverOpts, ServerOrderingStrategy};
+use hickory_resolver::{ConnectionProvider, NameServerPool, PoolContext, TlsConfig};
+use proptest::collection::vec;
+use proptest::prelude::*;
+use serde::{Deserialize, Serialize};
+
+use crate::core::{prop, CaseResult, Check, Rec, Tier};
+use crate::refm::dnswire as w;
+use crate::sim::{self, Connect, ReadPoll, RecvPoll, Sim, SimNet, SimRt, SimTime, WritePoll};
+
+const BASE_UNIX: u64 = 1_700_000_000;
+const MS: u64 = 1_000_000;
+
+const QNAMES: &[&str] = &["www.example.com.", "mail.example.org.", "a.b.c.test."];
+
+// ---------------------------------------------------------------------------------------------
+// case
+
+#[derive(Clone, Copy, Debug, Serialize, Deserialize, PartialEq, Eq)]
+enum TcpSide {
+    /// full answer over TCP
+    Full,
+    /// connection refused
+    Refused,
+    /// accepts, reads the query, resets
+    Reset,
+    /// SYN is never answered
+    Hang,
+}
+
+#[derive(Clone, Copy, Debug, Serialize, Deserialize, PartialEq, Eq)]
+enum Beh {
+    /// answers on UDP and TCP
+    Answer,
+    /// NXDOMAIN on UDP and TCP
+    NxDomain,
+    /// TC=1 on UDP; TCP as given
+    Truncated { tcp: TcpSide },
+    /// never replies on UDP; TCP: SYN unanswered, or accepted and then silent
+    Silent { tcp_accepts: bool },
+    /// UDP: send fails at once (`at_recv` false) or the receive fails after the latency (ICMP);
+    /// TCP: connection refused
+    IoError { at_recv: bool },
+    /// TCP: accepts, reads the query, then resets (`clean` = closes without a reply instead);
+    /// UDP: receive error after the latency
+    Reset { clean: bool },
+}
+
+#[derive(Clone, Copy, Debug, Serialize, Deserialize, PartialEq, Eq)]
+enum Protos {
+    Both,
+    UdpOnly,
+    TcpOnly,
+}
+
+#[derive(Clone, Copy, Debug, Serialize, Deserialize)]
+struct Server {
+    beh: Beh,
+    /// the first `busy` sends to this server are answered with NetError::Busy (back-pressure)
+    busy: u8,
+    lat_ms: u16,
+    protos: Protos,
+    trust_nx: bool,
+}
+
+#[derive(Clone, Copy, Debug, Serialize, Deserialize)]
+struct Caller {
+    q: u8,
+    start_ms: u16,
+}
+
+#[derive(Clone, Debug, Serialize, Deserialize)]
+struct PoolCase {
+    servers: Vec<Server>,
+    /// 0 = QueryStatistics, 1 = UserProvidedOrder, 2 = RoundRobin
+    strategy: u8,
+    num_concurrent_reqs: u8,
+    timeout_ms: u32,
+    connect_timeout_ms: u32,
+    case_rand: bool,
+    callers: Vec<Caller>,
+    /// after everything completed, one more lookup identical to caller 0
+    later: bool,
+}
+
+fn has_udp(p: Protos) -> bool {
+    matches!(p, Protos::Both | Protos::UdpOnly)
+}
+fn has_tcp(p: Protos) -> bool {
+    matches!(p, Protos::Both | Protos::TcpOnly)
+}
+
+fn server_ip(i: usize) -> IpAddr {
+    IpAddr::V4(Ipv4Addr::new(10, 0, 0, i as u8 + 1))
+}
+
+// ---------------------------------------------------------------------------------------------
+// scripted internet
+
+#[derive(Clone, Debug)]
+struct Exch {
+    t: u64,
+    server: usize,
+    tcp: bool,
+    /// lower-cased presentation form of the question name
+    qname: String,
+}
+
+struct UdpS {
+    server: Option<usize>,
+    inbox: VecDeque<(u64, Vec<u8>)>,
+    recv_err_at: Option<u64>,
+}
+
+struct TcpS {
+    server: usize,
+    inbuf: Vec<u8>,
+    out: VecDeque<(u64, Vec<u8>)>,
+    reset_at: Option<u64>,
+    eof_at: Option<u64>,
+}
+
+enum Ep {
+    Udp(UdpS),
+    Tcp(TcpS),
+}
+
+struct NetSt {
+    servers: Vec<Server>,
+    eps: Vec<Ep>,
+    /// complete request messages that reached a server
+    log: Vec<Exch>,
+    /// every attempt to reach a server at the socket level (bind/send/connect), with time
+    contacts: Vec<(u64, usize)>,
+}
+
+struct Net18 {
+    st: RefCell<NetSt>,
+}
+
+fn server_of(addr: SocketAddr, n: usize) -> Option<usize> {
+    match addr.ip() {
+        IpAddr::V4(v4) => {
+            let o = v4.octets();
+            if o[0] == 10 && o[1] == 0 && o[2] == 0 && o[3] >= 1 && (o[3] as usize) <= n && addr.port() == 53 {
+                Some(o[3] as usize - 1)
+            } else {
+                None
+            }
+        }
+        _ => None,
+    }
+}
+
+/// kinds of reply bodies, carried in the third octet of the answer address
+const K_UDP: u8 = 1;
+const K_TCP: u8 = 2;
+const K_TRUNC: u8 = 3;
+
+fn reply(query: &[u8], server: usize, beh: Beh, tcp: bool) -> Option<Vec<u8>> {
+    let h = w::parse_header(query)?;
+    let (qs, _) = w::parse_questions(query)?;
+    let q = qs.first()?.clone();
+    let base = w::F_QR | w::F_RD | w::F_RA;
+    let ans = |kind: u8| vec![w::a_rr(&q.name, 300, [10, 100 + server as u8, kind, 1])];
+    let zone: w::Labels = q.name.iter().skip(q.name.len().saturating_sub(2)).cloned().collect();
+    match (beh, tcp) {
+        (Beh::Answer, false) => Some(w::build(h.id, base, &[q.clone()], &ans(K_UDP), &[], &[])),
+        (Beh::Answer, true) => Some(w::build(h.id, base, &[q.clone()], &ans(K_TCP), &[], &[])),
+        (Beh::NxDomain, _) => Some(w::build(h.id, base | 3, &[q.clone()], &[], &[w::soa_rr(&zone, 60)], &[])),
+        (Beh::Truncated { .. }, false) => Some(w::build(h.id, base | w::F_TC, &[q.clone()], &ans(K_TRUNC), &[], &[])),
+        (Beh::Truncated { tcp: TcpSide::Full }, true) => Some(w::build(h.id, base, &[q.clone()], &ans(K_TCP), &[], &[])),
+        _ => None,
+    }
+}
+
+fn qname_of(query: &[u8]) -> String {
+    w::parse_questions(query)
+        .and_then(|(qs, _)| qs.first().map(|q| w::show_name(&q.name).to_ascii_lowercase()))
+        .unwrap_or_else(|| "<unreadable>".into())
+}
+
+impl SimNet for Net18 {
+    fn udp_bind(&self, _local: SocketAddr, server: SocketAddr) -> io::Result<u64> {
+        let mut st = self.st.borrow_mut();
+        let n = st.servers.len();
+        let s = server_of(server, n);
+        if let Some(s) = s {
+            st.contacts.push((sim::now_nanos(), s));
+        }
+        st.eps.push(Ep::Udp(UdpS {
+            server: s,
+            inbox: VecDeque::new(),
+            recv_err_at: None,
+        }));
+        Ok(st.eps.len() as u64 - 1)
+    }
+
+    fn udp_send(&self, sock: u64, buf: &[u8], target: SocketAddr) -> io::Result<usize> {
+        let mut st = self.st.borrow_mut();
+        let now = sim::now_nanos();
+        let n = st.servers.len();
+        let Some(s) = server_of(target, n) else {
+            return Ok(buf.len()); // into the void
+        };
+        let srv = st.servers[s];
+        st.contacts.push((now, s));
+        if let Beh::IoError { at_recv: false } = srv.beh {
+            return Err(io::Error::new(io::ErrorKind::ConnectionRefused, "simulated: network unreachable"));
+        }
+        st.log.push(Exch {
+            t: now,
+            server: s,
+            tcp: false,
+            qname: qname_of(buf),
+        });
+        let at = now + srv.lat_ms as u64 * MS;
+        let rep = reply(buf, s, srv.beh, false);
+        let Ep::Udp(u) = &mut st.eps[sock as usize] else {
+            return Err(io::Error::other("not a udp socket"));
+        };
+        match srv.beh {
+            Beh::IoError { at_recv: true } | Beh::Reset { .. } => u.recv_err_at = Some(at),
+            _ => {
+                if let Some(r) = rep {
+                    u.inbox.push_back((at, r));
+                }
+            }
+        }
+        Ok(buf.len())
+    }
+
+    fn udp_poll_recv(&self, sock: u64, now: u64) -> RecvPoll {
+        let mut st = self.st.borrow_mut();
+        let n = st.servers.len();
+        let Ep::Udp(u) = &mut st.eps[sock as usize] else {
+            return RecvPoll::Err(io::Error::other("not a udp socket"));
+        };
+        if let Some(t) = u.recv_err_at {
+            if t <= now {
+                u.recv_err_at = None;
+                return RecvPoll::Err(io::Error::new(io::ErrorKind::ConnectionRefused, "simulated: port unreachable"));
+            }
+            return RecvPoll::At(t);
+        }
+        match u.inbox.front() {
+            None => RecvPoll::Never,
+            Some((t, _)) if *t <= now => {
+                let (_, b) = u.inbox.pop_front().unwrap();
+                let src = SocketAddr::new(server_ip(u.server.unwrap_or(n)), 53);
+                RecvPoll::Ready(b, src)
+            }
+            Some((t, _)) => RecvPoll::At(*t),
+        }
+    }
+
+    fn tcp_connect(&self, server: SocketAddr, now: u64) -> Connect {
+        let mut st = self.st.borrow_mut();
+        let n = st.servers.len();
+        let Some(s) = server_of(server, n) else {
+            return Connect::Hang;
+        };
+        st.contacts.push((now, s));
+        let srv = st.servers[s];
+        let at = now + srv.lat_ms as u64 * MS;
+        let accept = match srv.beh {
+            Beh::Answer | Beh::NxDomain | Beh::Reset { .. } => true,
+            Beh::Truncated { tcp } => match tcp {
+                TcpSide::Full | TcpSide::Reset => true,
+                TcpSide::Refused => false,
+                TcpSide::Hang => return Connect::Hang,
+            },
+            Beh::Silent { tcp_accepts } => {
+                if tcp_accepts {
+                    true
+                } else {
+                    return Connect::Hang;
+                }
+            }
+            Beh::IoError { .. } => false,
+        };
+        if !accept {
+            return if srv.lat_ms == 0 {
+                Connect::Err(io::Error::new(io::ErrorKind::ConnectionRefused, "simulated: connection refused"))
+            } else {
+                Connect::ErrAt(at, io::ErrorKind::ConnectionRefused)
+            };
+        }
+        st.eps.push(Ep::Tcp(TcpS {
+            server: s,
+            inbuf: vec![],
+            out: VecDeque::new(),
+            reset_at: None,
+            eof_at: None,
+        }));
+        let id = st.eps.len() as u64 - 1;
+        if srv.lat_ms == 0 {
+            Connect::Ok(id)
+        } else {
+            Connect::OkAt(at, id)
+        }
+    }
+
+    fn tcp_poll_write(&self, conn: u64, buf: &[u8], now: u64) -> WritePoll {
+        let mut st = self.st.borrow_mut();
+        let servers = st.servers.clone();
+        let mut new_log = vec![];
+        let Ep::Tcp(c) = &mut st.eps[conn as usize] else {
+            return WritePoll::Err(io::Error::other("not a tcp connection"));
+        };
+        if c.reset_at.is_some_and(|t| t <= now) {
+            return WritePoll::Err(io::Error::new(io::ErrorKind::BrokenPipe, "simulated: peer reset"));
+        }
+        c.inbuf.extend_from_slice(buf);
+        // complete frames (RFC 1035 §4.2.2: two-octet length prefix)
+        while c.inbuf.len() >= 2 {
+            let len = u16::from_be_bytes([c.inbuf[0], c.inbuf[1]]) as usize;
+            if c.inbuf.len() < 2 + len {
+                break;
+            }
+            let msg: Vec<u8> = c.inbuf[2..2 + len].to_vec();
+            c.inbuf.drain(..2 + len);
+            let srv = servers[c.server];
+            let at = now + srv.lat_ms as u64 * MS;
+            new_log.push(Exch {
+                t: now,
+                server: c.server,
+                tcp: true,
+                qname: qname_of(&msg),
+            });
+            let resets = matches!(srv.beh, Beh::Reset { clean: false } | Beh::Truncated { tcp: TcpSide::Reset });
+            let closes = matches!(srv.beh, Beh::Reset { clean: true });
+            if resets {
+                c.reset_at.get_or_insert(at);
+            } else if closes {
+                c.eof_at.get_or_insert(at);
+            } else if let Some(r) = reply(&msg, c.server, srv.beh, true) {
+                let mut framed = (r.len() as u16).to_be_bytes().to_vec();
+                framed.extend_from_slice(&r);
+                c.out.push_back((at, framed));
+            }
+        }
+        st.log.extend(new_log);
+        WritePoll::Accept(buf.len())
+    }
+
+    fn tcp_poll_read(&self, conn: u64, max: usize, now: u64) -> ReadPoll {
+        let mut st = self.st.borrow_mut();
+        let Ep::Tcp(c) = &mut st.eps[conn as usize] else {
+            return ReadPoll::Err(io::Error::other("not a tcp connection"));
+        };
+        if let Some((t, _)) = c.out.front() {
+            if *t <= now {
+                let (t, mut data) = c.out.pop_front().unwrap();
+                if data.len() > max {
+                    let rest = data.split_off(max);
+                    c.out.push_front((t, rest));
+                }
+                return ReadPoll::Data(data);
+            }
+        }
+        let mut next: Option<u64> = c.out.front().map(|x| x.0);
+        if let Some(t) = c.reset_at {
+            if t <= now {
+                return ReadPoll::Err(io::Error::new(io::ErrorKind::ConnectionReset, "simulated: connection reset by peer"));
+            }
+            next = Some(next.map_or(t, |n| n.min(t)));
+        }
+        if let Some(t) = c.eof_at {
+            if t <= now {
+                return ReadPoll::Eof;
+            }
+            next = Some(next.map_or(t, |n| n.min(t)));
+        }
+        match next {
+            Some(t) => ReadPoll::At(t),
+            None => ReadPoll::Never,
+        }
+    }
+}
+
+// ---------------------------------------------------------------------------------------------
+// connection provider: the stock one plus Busy injection and an attempt log
+
+#[derive(Default)]
+struct ProvSt {
+    busy_left: Vec<u8>,
+    /// (time, server, tcp) of every DnsHandle::send towards a server (incl. those answered Busy)
+    sends: Vec<(u64, usize, bool, bool)>,
+    /// (time, server, tcp) of every new_connection
+    connects: Vec<(u64, usize, bool)>,
+}
+
+#[derive(Clone)]
+struct FaultProvider {
+    rt: SimRt,
+    st: Arc<Mutex<ProvSt>>,
+    nservers: usize,
+}
+
+#[derive(Clone)]
+struct FaultConn {
+    inner: DnsExchange<SimRt>,
+    server: usize,
+    tcp: bool,
+    st: Arc<Mutex<ProvSt>>,
+}
+
+impl DnsHandle for FaultConn {
+    type Response = Pin<Box<dyn Stream<Item = Result<DnsResponse, NetError>> + Send>>;
+    type Runtime = SimRt;
+
+    fn send(&self, request: DnsRequest) -> Self::Response {
+        let busy = {
+            let mut st = self.st.lock().unwrap();
+            let b = st.busy_left.get(self.server).copied().unwrap_or(0) > 0;
+            if b {
+                st.busy_left[self.server] -= 1;
+            }
+            st.sends.push((sim::now_nanos(), self.server, self.tcp, b));
+            b
+        };
+        if busy {
+            return Box::pin(futures_util::stream::once(async { Err(NetError::Busy) }));
+        }
+        Box::pin(self.inner.send(request))
+    }
+}
+
+impl ConnectionProvider for FaultProvider {
+    type Conn = FaultConn;
+    type FutureConn = Pin<Box<dyn Future<Output = Result<FaultConn, NetError>> + Send + 'static>>;
+    type RuntimeProvider = SimRt;
+
+    fn new_connection(&self, ip: IpAddr, config: &ConnectionConfig, cx: &PoolContext) -> Result<Self::FutureConn, NetError> {
+        let server = server_of(SocketAddr::new(ip, 53), self.nservers).unwrap_or(0);
+        let tcp = matches!(config.protocol, ProtocolConfig::Tcp);
+        self.st.lock().unwrap().connects.push((sim::now_nanos(), server, tcp));
+        let fut = <SimRt as ConnectionProvider>::new_connection(&self.rt, ip, config, cx)?;
+        let st = self.st.clone();
+        Ok(Box::pin(async move {
+            let inner = fut.await?;
+            Ok(FaultConn { inner, server, tcp, st })
+        }))
+    }
+
+    fn runtime_provider(&self) -> &SimRt {
+        &self.rt
+    }
+}
+
+// ---------------------------------------------------------------------------------------------
+// running a scenario
+
+#[derive(Clone, Debug)]
+enum Outcome {
+    /// (server, kind) read from the answer address, TC flag, question name (lower-cased)
+    Ok { server: usize, kind: u8, tc: bool, qname: String, answers: usize, rcode: u8 },
+    /// Ok whose octets the harness cannot attribute
+    OkUnreadable(String),
+    NxDomain,
+    NoData,
+    Timeout,
+    Busy,
+    #[allow(dead_code)]
+    Io(String),
+    NoConnections,
+    Other(String),
+    /// the response stream ended without an item
+    Nothing,
+}
+
+impl Outcome {
+    fn brief(&self) -> String {
+        match self {
+            Outcome::Ok { server, kind, .. } => format!("ok(s{server},k{kind})"),
+            Outcome::OkUnreadable(s) => format!("ok-unreadable({s})"),
+            Outcome::NxDomain => "nxdomain".into(),
+            Outcome::NoData => "nodata".into(),
+            Outcome::Timeout => "timeout".into(),
+            Outcome::Busy => "busy".into(),
+            Outcome::Io(_) => "io".into(),
+            Outcome::NoConnections => "no-connections".into(),
+            Outcome::Other(s) => format!("other({s})"),
+            Outcome::Nothing => "nothing".into(),
+        }
+    }
+}
+
+fn read_outcome(item: Option<Result<DnsResponse, NetError>>) -> Outcome {
+    match item {
+        None => Outcome::Nothing,
+        Some(Ok(r)) => {
+            let b = r.as_buffer();
+            let Some(h) = w::parse_header(b) else {
+                return Outcome::OkUnreadable("no header".into());
+            };
+            let Some((qs, pos)) = w::parse_questions(b) else {
+                return Outcome::OkUnreadable("question".into());
+            };
+            let Some((an, _)) = w::parse_rrs(b, pos, h.an as usize) else {
+                return Outcome::OkUnreadable("answers".into());
+            };
+            let qname = qs.first().map(|q| w::show_name(&q.name).to_ascii_lowercase()).unwrap_or_default();
+            let first = an.iter().find(|rr| rr.rtype == w::T_A && rr.rdata.len() == 4);
+            match first {
+                Some(rr) if rr.rdata[0] == 10 && rr.rdata[1] >= 100 => Outcome::Ok {
+                    server: (rr.rdata[1] - 100) as usize,
+                    kind: rr.rdata[2],
+                    tc: h.tc(),
+                    qname,
+                    answers: an.len(),
+                    rcode: h.rcode(),
+                },
+                _ => Outcome::OkUnreadable(format!("no marker record among {} answers", an.len())),
+            }
+        }
+        Some(Err(e)) => match &e {
+            NetError::Dns(DnsError::NoRecordsFound(NoRecords { response_code, .. })) => {
+                if *response_code == ResponseCode::NXDomain {
+                    Outcome::NxDomain
+                } else {
+                    Outcome::NoData
+                }
+            }
+            NetError::Timeout => Outcome::Timeout,
+            NetError::Busy => Outcome::Busy,
+            NetError::Io(io) => Outcome::Io(io.to_string()),
+            NetError::NoConnections => Outcome::NoConnections,
+            other => Outcome::Other(other.to_string()),
+        },
+    }
+}
+
+#[derive(Clone, Debug)]
+struct CallerResult {
+    q: u8,
+    t_start: u64,
+    t_done: u64,
+    /// positions in the global order of lookup starts and completions (virtual time alone cannot
+    /// tell whether two lookups at the same instant overlapped)
+    seq_start: u64,
+    seq_done: u64,
+    outcome: Outcome,
+}
+
+/// two lookups were in progress at the same time
+fn overlapped(a: &CallerResult, b: &CallerResult) -> bool {
+    a.seq_start < b.seq_done && b.seq_start < a.seq_done
+}
+
+struct Run {
+    results: Vec<CallerResult>,
+    later: Option<CallerResult>,
+    log: Vec<Exch>,
+    contacts: Vec<(u64, usize)>,
+    sends: Vec<(u64, usize, bool, bool)>,
+    /// number of socket-level contacts + provider-level sends before the `later` lookup started
+    activity_before_later: usize,
+    activity_total: usize,
+}
+
+fn strategy_of(i: u8) -> ServerOrderingStrategy {
+    match i % 3 {
+        0 => ServerOrderingStrategy::QueryStatistics,
+        1 => ServerOrderingStrategy::UserProvidedOrder,
+        _ => ServerOrderingStrategy::RoundRobin,
+    }
+}
+
+fn run_pool(c: &PoolCase, callers: &[Caller], later: bool) -> Result<Run, crate::core::Fail> {
+    let mut sim = Sim::new(BASE_UNIX);
+    let net = Rc::new(Net18 {
+        st: RefCell::new(NetSt {
+            servers: c.servers.clone(),
+            eps: vec![],
+            log: vec![],
+            contacts: vec![],
+        }),
+    });
+    sim.set_net(net.clone());
+    let pst = Arc::new(Mutex::new(ProvSt {
+        busy_left: c.servers.iter().map(|s| s.busy).collect(),
+        ..Default::default()
+    }));
+    let provider = FaultProvider {
+        rt: SimRt,
+        st: pst.clone(),
+        nservers: c.servers.len(),
+    };
+
+    let mut opts = ResolverOpts::default();
+    opts.timeout = Duration::from_millis(c.timeout_ms as u64);
+    opts.connect_timeout = Duration::from_millis(c.connect_timeout_ms as u64);
+    opts.num_concurrent_reqs = c.num_concurrent_reqs as usize;
+    opts.server_ordering_strategy = strategy_of(c.strategy);
+    opts.case_randomization = c.case_rand;
+    let cx = Arc::new(PoolContext::new(opts, TlsConfig::new().map_err(|e| crate::core::Fail::new("harness-tls-config", e.to_string()))?));
+    let configs: Vec<NameServerConfig> = c
+        .servers
+        .iter()
+        .enumerate()
+        .map(|(i, s)| {
+            let conns = match s.protos {
+                Protos::Both => vec![ConnectionConfig::udp(), ConnectionConfig::tcp()],
+                Protos::UdpOnly => vec![ConnectionConfig::udp()],
+                Protos::TcpOnly => vec![ConnectionConfig::tcp()],
+            };
+            NameServerConfig::new(server_ip(i), s.trust_nx, conns)
+        })
+        .collect();
+    let pool = NameServerPool::from_config(configs, cx, provider);
+
+    let seq = Rc::new(std::cell::Cell::new(0u64));
+    let lookup = |pool: NameServerPool<FaultProvider>, cl: Caller, seq: Rc<std::cell::Cell<u64>>| async move {
+        if cl.start_ms > 0 {
+            SimTime::delay_for(Duration::from_millis(cl.start_ms as u64)).await;
+        }
+        let t_start = sim::now_nanos();
+        let tick = |seq: &Rc<std::cell::Cell<u64>>| {
+            seq.set(seq.get() + 1);
+            seq.get()
+        };
+        let seq_start = tick(&seq);
+        let name = Name::from_ascii(QNAMES[cl.q as usize % QNAMES.len()]).expect("fixed name");
+        let mut s = pool.lookup(Query::new(name, RecordType::A), DnsRequestOptions::default());
+        let item = s.next().await;
+        CallerResult {
+            q: cl.q % QNAMES.len() as u8,
+            t_start,
+            t_done: sim::now_nanos(),
+            seq_start,
+            seq_done: tick(&seq),
+            outcome: read_outcome(item),
+        }
+    };
+
+    let futs: Vec<_> = callers.iter().map(|cl| lookup(pool.clone(), *cl, seq.clone())).collect();
+    let results = match sim.run(futures_util::future::join_all(futs), 200_000) {
+        Ok(r) => r,
+        Err(e) => {
+            return Err(crate::core::Fail::new(
+                "lookup-never-completes",
+                format!("simulation ended with {e:?} before every lookup completed"),
+            ))
+        }
+    };
+    let activity_before_later = net.st.borrow().contacts.len() + pst.lock().unwrap().sends.len();
+    let later_res = if later && !callers.is_empty() {
+        let cl = Caller {
+            q: callers[0].q,
+            start_ms: 1,
+        };
+        match sim.run(lookup(pool.clone(), cl, seq.clone()), 200_000) {
+            Ok(r) => Some(r),
+            Err(e) => {
+                return Err(crate::core::Fail::new(
+                    "lookup-never-completes",
+                    format!("later lookup: simulation ended with {e:?}"),
+                ))
+            }
+        }
+    } else {
+        None
+    };
+    drop(pool);
+    drop(sim);
+    let st = net.st.borrow();
+    let p = pst.lock().unwrap();
+    Ok(Run {
+        results,
+        later: later_res,
+        log: st.log.clone(),
+        contacts: st.contacts.clone(),
+        sends: p.sends.clone(),
+        activity_before_later,
+        activity_total: st.contacts.len() + p.sends.len(),
+    })
+}
+
+// ---------------------------------------------------------------------------------------------
+// oracle
+
+#[derive(Clone, Copy, Debug, PartialEq, Eq)]
+enum Role {
+    /// reliably produces a positive answer
+    Healthy,
+    /// produces NXDOMAIN and is trusted for it: a legitimate final result
+    TerminalNeg,
+    /// fails within its latency; never blocks the search
+    FastFail,
+    /// may hold a round until a timeout fires
+    Slow,
+}
+
+/// how a server behaves *as seen by one lookup*, independent of the order it is tried in
+fn role(s: &Server, tc_possible: bool) -> Role {
+    let tcp_role = |side: TcpSide| match side {
+        TcpSide::Full => Role::Healthy,
+        TcpSide::Refused | TcpSide::Reset => Role::FastFail,
+        TcpSide::Hang => Role::Slow,
+    };
+    match s.beh {
+        Beh::Answer => {
+            if s.busy > 4 {
+                // more Busy replies than the pool's back-off (20+40+80+160 ms) tolerates
+                Role::FastFail
+            } else if tc_possible && !has_tcp(s.protos) {
+                // after a TC reply the lookup is TCP-only (ConnectionPolicy.disable_udp): whether a
+                // UDP-only server is asked before that depends on the order
+                Role::FastFail
+            } else {
+                Role::Healthy
+            }
+        }
+        Beh::NxDomain => {
+            if s.trust_nx {
+                Role::TerminalNeg
+            } else {
+                Role::FastFail
+            }
+        }
+        Beh::Truncated { tcp } => match s.protos {
+            Protos::UdpOnly => Role::FastFail,
+            Protos::Both | Protos::TcpOnly => {
+                if s.busy > 4 && tcp == TcpSide::Full {
+                    Role::FastFail
+                } else {
+                    tcp_role(tcp)
+                }
+            }
+        },
+        Beh::Silent { .. } => Role::Slow,
+        Beh::IoError { .. } | Beh::Reset { .. } => Role::FastFail,
+    }
+}
+
+fn can_produce(s: &Server, kind: u8) -> bool {
+    match (s.beh, kind) {
+        (Beh::Answer, K_UDP) => has_udp(s.protos),
+        (Beh::Answer, K_TCP) => has_tcp(s.protos),
+        (Beh::Truncated { tcp: TcpSide::Full }, K_TCP) => has_tcp(s.protos),
+        _ => false,
+    }
+}
+
+fn render(c: &PoolCase) -> String {
+    let servers: Vec<String> = c
+        .servers
+        .iter()
+        .map(|s| format!("{:?}/busy{}/{}ms/{:?}/trust_nx={}", s.beh, s.busy, s.lat_ms, s.protos, s.trust_nx))
+        .collect();
+    let callers: Vec<String> = c.callers.iter().map(|k| format!("q{}@{}ms", k.q % QNAMES.len() as u8, k.start_ms)).collect();
+    format!(
+        "servers=[{}] strategy={:?} concurrent={} timeout={}ms connect_timeout={}ms 0x20={} callers=[{}] later={}",
+        servers.join("; "),
+        strategy_of(c.strategy),
+        c.num_concurrent_reqs,
+        c.timeout_ms,
+        c.connect_timeout_ms,
+        c.case_rand,
+        callers.join(","),
+        c.later
+    )
+}
+
+/// `soft` collects deviations that carry one of the recorded known-finding signatures; they are
+/// reported only after every other clause has been evaluated for every caller, so that the search
+/// continues behind a known finding instead of stopping at it.
+fn check_result(c: &PoolCase, run: &Run, r: &CallerResult, who: &str, live_domain: bool, rec: &mut Rec, soft: &mut Vec<crate::core::Fail>) -> CaseResult {
+    let want_q = QNAMES[r.q as usize].to_ascii_lowercase();
+    // ---- (i) validity ---------------------------------------------------------------------------
+    match &r.outcome {
+        Outcome::Ok {
+            server,
+            kind,
+            tc,
+            qname,
+            answers,
+            rcode,
+        } => {
+            vensure!(!*tc && *kind != K_TRUNC, "ok-with-truncated-udp-body", "{who}: Ok carries a truncated UDP body (server {server}, kind {kind}, tc={tc})");
+            vensure!(*server < c.servers.len(), "ok-fabricated", "{who}: Ok names server {server} which does not exist");
+            vensure!(
+                can_produce(&c.servers[*server], *kind),
+                "ok-from-server-that-cannot-answer",
+                "{who}: Ok attributed to server {server} kind {kind}, whose behaviour is {:?}/{:?}",
+                c.servers[*server].beh,
+                c.servers[*server].protos
+            );
+            vensure!(*qname == want_q, "ok-for-another-question", "{who}: asked {want_q}, response is about {qname}");
+            vensure!(*answers == 1 && *rcode == 0, "ok-altered", "{who}: {answers} answers, rcode {rcode}");
+            let tcp = *kind == K_TCP;
+            vensure!(
+                run.log.iter().any(|e| e.server == *server && e.tcp == tcp && e.qname == want_q && e.t <= r.t_done),
+                "ok-without-exchange",
+                "{who}: Ok attributed to server {server} ({}) but no such exchange for {want_q} is logged before {} ns",
+                if tcp { "tcp" } else { "udp" },
+                r.t_done
+            );
+            if let Beh::Truncated { .. } = c.servers[*server].beh {
+                rec.class("result:ok-after-tc-over-tcp");
+            }
+        }
+        Outcome::OkUnreadable(why) => vfail!("ok-fabricated", "{who}: Ok response that no simulated server sent ({why})"),
+        Outcome::NxDomain => {
+            vensure!(
+                run.log
+                    .iter()
+                    .any(|e| matches!(c.servers[e.server].beh, Beh::NxDomain) && e.qname == want_q && e.t <= r.t_done),
+                "nxdomain-fabricated",
+                "{who}: NXDOMAIN although no NXDOMAIN server was asked about {want_q}"
+            );
+        }
+        Outcome::NoData => vfail!("nodata-fabricated", "{who}: NODATA although no server sends one"),
+        Outcome::Nothing => vfail!("no-result", "{who}: the response stream ended without a result"),
+        _ => {}
+    }
+
+    // ---- (iii) deadline ---------------------------------------------------------------------------
+    let budget = c.timeout_ms as u64 * MS;
+    let took = r.t_done - r.t_start;
+    if took > budget {
+        // one more attempt that was already in flight when the deadline passed may run to its own
+        // timeouts (connect_timeout + timeout, once more if a reused connection is re-established)
+        let one_attempt = (c.connect_timeout_ms as u64 + c.timeout_ms as u64 + c.servers.iter().map(|s| s.lat_ms as u64).max().unwrap_or(0)) * MS;
+        if took - budget <= one_attempt {
+            soft.push(crate::core::Fail::new(
+                "deadline-overrun-by-attempt-in-flight",
+                format!(
+                    "{who}: completed after {:.3} s, configured timeout {:.3} s (overrun {:.3} s): the deadline is only tested between rounds, an attempt started before it runs to its own timeout; outcome {}",
+                    took as f64 / 1e9,
+                    budget as f64 / 1e9,
+                    (took - budget) as f64 / 1e9,
+                    r.outcome.brief()
+                ),
+            ));
+        } else {
+        vfail!(
+            "deadline-overrun-unbounded",
+            "{who}: completed after {:.3} s, configured timeout {:.3} s; outcome {}",
+            took as f64 / 1e9,
+            budget as f64 / 1e9,
+            r.outcome.brief()
+        );
+        }
+    }
+
+    // ---- (ii) liveness, in the order-independent sub-domain ---------------------------------------
+    if live_domain {
+        let terminal_neg = c.servers.iter().any(|s| role(s, false) == Role::TerminalNeg);
+        match &r.outcome {
+            Outcome::Ok { server, .. } => {
+                // TC on UDP ⇒ a TCP exchange with that server is logged
+                if let Beh::Truncated { .. } = c.servers[*server].beh {
+                    vensure!(
+                        run.log.iter().any(|e| e.server == *server && e.tcp && e.qname == want_q),
+                        "tc-without-tcp-retry",
+                        "{who}: answer of a truncating server without a TCP exchange"
+                    );
+                }
+            }
+            Outcome::NxDomain if terminal_neg => {}
+            other => {
+                let tcp_can_die = c.servers.iter().any(|s| {
+                    has_tcp(s.protos) && matches!(s.beh, Beh::Reset { .. } | Beh::Truncated { tcp: TcpSide::Reset })
+                });
+                let sig = match other {
+                    // a request queued in the DnsExchange channel of a (shared or reused) connection
+                    // whose background task ends (peer reset / close) is answered "receiver was canceled"
+                    // (NetError::Msg), which the pool treats as fatal instead of trying the next server
+                    Outcome::Other(m) if m.contains("receiver was canceled") && tcp_can_die => {
+                        "lookup-aborted-receiver-canceled-when-shared-tcp-connection-dies"
+                    }
+                    Outcome::NxDomain => "healthy-server-ignored-after-untrusted-nxdomain",
+                    Outcome::Timeout => "healthy-server-ignored-timeout",
+                    Outcome::Busy => "healthy-server-ignored-busy",
+                    Outcome::Io(_) | Outcome::NoConnections => "healthy-server-ignored-io-error",
+                    Outcome::Other(m) if m.contains("truncated") => "healthy-server-ignored-after-truncation",
+                    _ => "healthy-server-ignored",
+                };
+                let f = crate::core::Fail::new(
+                    sig,
+                    format!(
+                        "{who}: every faulty server fails fast and a healthy one exists, but the result is {} ({:?})",
+                        other.brief(),
+                        other
+                    ),
+                );
+                if sig == "lookup-aborted-receiver-canceled-when-shared-tcp-connection-dies" {
+                    soft.push(f);
+                } else {
+                    return Err(f);
+                }
+            }
+        }
+    }
+    Ok(())
+}
+
+fn live_domain(c: &PoolCase, ncallers: usize) -> bool {
+    let tc_possible = c.servers.iter().any(|s| matches!(s.beh, Beh::Truncated { .. }) && has_udp(s.protos));
+    let roles: Vec<Role> = c.servers.iter().map(|s| role(s, tc_possible)).collect();
+    if roles.iter().any(|r| *r == Role::Slow) || !roles.iter().any(|r| *r == Role::Healthy) {
+        return false;
+    }
+    // busy budgets are shared by all lookups on the pool: a healthy server must stay within the
+    // back-off's tolerance for every one of them, which holds because each lookup sees at most
+    // `busy` Busy replies from it (<= 4).
+    // worst-case serial cost: every server costs at most UDP + TCP connect + TCP exchange per
+    // round, at most 6 rounds (initial + 5 back-off retries), plus the 300 ms of back-off sleeps;
+    // concurrent lookups do not wait for each other (max_active_requests is not reached).
+    let _ = ncallers;
+    let cost_ms: u64 = 300 + c.servers.iter().map(|s| 3 * 6 * s.lat_ms as u64).sum::<u64>();
+    cost_ms < c.timeout_ms as u64 && cost_ms < c.connect_timeout_ms as u64 + c.timeout_ms as u64
+}
+
+fn classify(c: &PoolCase, rec: &mut Rec) {
+    for s in &c.servers {
+        rec.class(match s.beh {
+            Beh::Answer => "beh:answer",
+            Beh::NxDomain => {
+                if s.trust_nx {
+                    "beh:nxdomain-trusted"
+                } else {
+                    "beh:nxdomain-untrusted"
+                }
+            }
+            Beh::Truncated { tcp: TcpSide::Full } => "beh:truncated+tcp-full",
+            Beh::Truncated { .. } => "beh:truncated+tcp-faulty",
+            Beh::Silent { .. } => "beh:silent",
+            Beh::IoError { .. } => "beh:io-error",
+            Beh::Reset { .. } => "beh:reset",
+        });
+        if s.busy > 0 {
+            rec.class(if s.busy <= 4 { "busy:1-4" } else { "busy:5+" });
+        }
+        rec.class(match s.protos {
+            Protos::Both => "protos:udp+tcp",
+            Protos::UdpOnly => "protos:udp",
+            Protos::TcpOnly => "protos:tcp",
+        });
+    }
+    rec.class(format!("servers:{}", c.servers.len()));
+    rec.class(format!("strategy:{:?}", strategy_of(c.strategy)));
+    rec.class(format!("concurrent:{}", c.num_concurrent_reqs));
+}
+
+fn run_faults(c: &PoolCase, rec: &mut Rec) -> CaseResult {
+    let run = run_pool(c, &c.callers, c.later)?;
+    if std::env::var_os("C18_TRACE").is_some() {
+        eprintln!("case: {}", render(c));
+        for e in &run.log {
+            eprintln!("  exch t={:.6}s s{} {} {}", e.t as f64 / 1e9, e.server, if e.tcp { "tcp" } else { "udp" }, e.qname);
+        }
+        for (t, s, tcp, busy) in &run.sends {
+            eprintln!("  send t={:.6}s s{} {} busy={}", *t as f64 / 1e9, s, if *tcp { "tcp" } else { "udp" }, busy);
+        }
+        for r in run.results.iter().chain(run.later.iter()) {
+            eprintln!("  result q{} start={:.6}s done={:.6}s {:?}", r.q, r.t_start as f64 / 1e9, r.t_done as f64 / 1e9, r.outcome);
+        }
+    }
+    let live = live_domain(c, c.callers.len());
+    let mut soft: Vec<crate::core::Fail> = vec![];
+    classify(c, rec);
+    rec.class(if live { "liveness:asserted" } else { "liveness:not-asserted" });
+    rec.class(format!("callers:{}", c.callers.len()));
+    for (i, r) in run.results.iter().enumerate() {
+        check_result(c, &run, r, &format!("caller {i}"), live, rec, &mut soft)?;
+        rec.class(format!("result:{}", r.outcome.brief().split('(').next().unwrap_or("?")));
+    }
+    if let Some(r) = &run.later {
+        check_result(c, &run, r, "later lookup", live, rec, &mut soft)?;
+        // (iv, last clause) a later identical query causes a new upstream exchange
+        vensure!(
+            run.activity_total > run.activity_before_later,
+            "later-lookup-served-from-stale-in-flight-entry",
+            "a lookup issued after all earlier ones completed produced a result ({}) without contacting any server",
+            r.outcome.brief()
+        );
+    }
+    // identical simultaneous callers must agree
+    for (i, a) in run.results.iter().enumerate() {
+        for (j, b) in run.results.iter().enumerate().skip(i + 1) {
+            if a.q == b.q && a.t_start == b.t_start && overlapped(a, b) {
+                vensure!(
+                    a.outcome.brief() == b.outcome.brief(),
+                    "identical-concurrent-callers-disagree",
+                    "callers {i} and {j} asked the same question at the same instant and got {} vs {}",
+                    a.outcome.brief(),
+                    b.outcome.brief()
+                );
+            }
+        }
+    }
+    let faulty = c.servers.iter().any(|s| !matches!(s.beh, Beh::Answer) || s.busy > 0);
+    let healthy = c.servers.iter().any(|s| matches!(s.beh, Beh::Answer | Beh::Truncated { tcp: TcpSide::Full }));
+    if (faulty && healthy) || c.callers.len() >= 2 {
+        rec.nontrivial();
+        if rec.wants_note() {
+            let outs: Vec<String> = run
+                .results
+                .iter()
+                .map(|r| format!("{}@{:.3}s", r.outcome.brief(), (r.t_done - r.t_start) as f64 / 1e9))
+                .collect();
+            rec.note(format!("{} => [{}] exchanges={}", render(c), outs.join(", "), run.log.len()));
+        }
+    }
+    let _ = &run.contacts;
+    match soft.into_iter().next() {
+        Some(f) => Err(f),
+        None => Ok(()),
+    }
+}
+
+// ---- de-duplication -----------------------------------------------------------------------------
+
+#[derive(Clone, Debug, Serialize, Deserialize)]
+struct DedupCase {
+    base: PoolCase,
+    k: u8,
+}
+
+fn per_server_counts(log: &[Exch], upto: Option<u64>) -> BTreeMap<(usize, bool), u32> {
+    let mut m = BTreeMap::new();
+    for e in log {
+        if upto.is_none_or(|t| e.t <= t) {
+            *m.entry((e.server, e.tcp)).or_insert(0) += 1;
+        }
+    }
+    m
+}
+
+fn run_dedup(d: &DedupCase, rec: &mut Rec) -> CaseResult {
+    let c = &d.base;
+    let k = d.k.clamp(2, 5) as usize;
+    let one = vec![Caller { q: 0, start_ms: 0 }];
+    let many = vec![Caller { q: 0, start_ms: 0 }; k];
+    let solo = run_pool(c, &one, true)?;
+    let multi = run_pool(c, &many, true)?;
+    let mut soft: Vec<crate::core::Fail> = vec![];
+    classify(c, rec);
+    rec.class(format!("k:{k}"));
+
+    // A lookup that completes within its first poll (every server fails synchronously) is over
+    // before the next caller starts: nothing is in flight to be shared. The sharing clauses apply
+    // to lookups that overlapped.
+    let first = multi.results[0].outcome.brief();
+    let all_overlap = multi.results.iter().all(|r| overlapped(r, &multi.results[0]) || std::ptr::eq(r, &multi.results[0]));
+    if !all_overlap {
+        rec.class("overlap:none(synchronous-completion)");
+        for (i, r) in multi.results.iter().enumerate() {
+            check_result(c, &multi, r, &format!("caller {i}/{k}"), false, rec, &mut soft)?;
+        }
+        return match soft.into_iter().next() {
+            Some(f) => Err(f),
+            None => Ok(()),
+        };
+    }
+    // all k get the same result
+    for (i, r) in multi.results.iter().enumerate() {
+        vensure!(
+            r.outcome.brief() == first,
+            "identical-concurrent-callers-disagree",
+            "caller 0 got {first}, caller {i} got {}",
+            r.outcome.brief()
+        );
+        vensure!(
+            r.t_done == multi.results[0].t_done,
+            "identical-concurrent-callers-finish-apart",
+            "caller 0 finished at {} ns, caller {i} at {} ns",
+            multi.results[0].t_done,
+            r.t_done
+        );
+    }
+    // one upstream exchange: no server sees two request messages for the question at one instant
+    let t_first_done = multi.results.iter().map(|r| r.t_done).max().unwrap_or(0);
+    let mut seen: BTreeMap<(u64, usize, bool), u32> = BTreeMap::new();
+    for e in multi.log.iter().filter(|e| e.t <= t_first_done) {
+        *seen.entry((e.t, e.server, e.tcp)).or_insert(0) += 1;
+    }
+    if let Some(((t, s, tcp), n)) = seen.iter().find(|(_, n)| **n > 1) {
+        vfail!(
+            "concurrent-identical-lookups-not-shared",
+            "{n} request messages for the same question reached server {s} ({}) at the same instant {t} ns with {k} identical callers",
+            if *tcp { "tcp" } else { "udp" }
+        );
+    }
+    // same per-server exchange count as one caller (strategies whose order is a function of the
+    // configuration only; QueryStatistics starts from a random SRTT per server)
+    let deterministic = !matches!(strategy_of(c.strategy), ServerOrderingStrategy::QueryStatistics);
+    if deterministic {
+        let a = per_server_counts(&solo.log, Some(solo.results[0].t_done));
+        let b = per_server_counts(&multi.log, Some(t_first_done));
+        vensure!(
+            a == b,
+            "concurrent-identical-lookups-not-shared",
+            "per-(server,tcp) exchange counts differ: one caller {a:?}, {k} callers {b:?}"
+        );
+        vensure!(
+            solo.results[0].outcome.brief() == first,
+            "shared-result-differs-from-single-lookup",
+            "one caller: {}, {k} callers: {first}",
+            solo.results[0].outcome.brief()
+        );
+        rec.class("counts:compared");
+    } else {
+        rec.class("counts:not-compared(random-order)");
+    }
+    // a later identical lookup goes upstream again
+    for (name, run) in [("single", &solo), ("multi", &multi)] {
+        if let Some(r) = &run.later {
+            vensure!(
+                run.activity_total > run.activity_before_later,
+                "later-lookup-served-from-stale-in-flight-entry",
+                "{name}: a lookup issued after the earlier ones completed produced {} without contacting any server",
+                r.outcome.brief()
+            );
+        }
+    }
+    // validity / deadline of everything seen
+    for (i, r) in multi.results.iter().enumerate() {
+        check_result(c, &multi, r, &format!("caller {i}/{k}"), false, rec, &mut soft)?;
+    }
+    rec.class(format!("result:{}", first.split('(').next().unwrap_or("?")));
+    rec.nontrivial();
+    if rec.wants_note() {
+        rec.note(format!(
+            "{} k={k} => {first}; exchanges one={} k={}",
+            render(c),
+            solo.log.len(),
+            multi.log.len()
+        ));
+    }
+    match soft.into_iter().next() {
+        Some(f) => Err(f),
+        None => Ok(()),
+    }
+}
+
+// ---------------------------------------------------------------------------------------------
+// strategies
+
+fn tcp_side() -> impl Strategy<Value = TcpSide> {
+    prop_oneof![4 => Just(TcpSide::Full), 1 => Just(TcpSide::Refused), 1 => Just(TcpSide::Reset), 1 => Just(TcpSide::Hang)]
+}
+
+fn beh(silent_w: u32) -> impl Strategy<Value = Beh> {
+    prop_oneof![
+        6 => Just(Beh::Answer),
+        3 => Just(Beh::NxDomain),
+        4 => tcp_side().prop_map(|tcp| Beh::Truncated { tcp }),
+        silent_w => any::<bool>().prop_map(|tcp_accepts| Beh::Silent { tcp_accepts }),
+        3 => any::<bool>().prop_map(|at_recv| Beh::IoError { at_recv }),
+        3 => any::<bool>().prop_map(|clean| Beh::Reset { clean }),
+    ]
+}
+
+fn server(silent_w: u32) -> impl Strategy<Value = Server> {
+    (
+        beh(silent_w),
+        prop_oneof![6 => Just(0u8), 3 => 1u8..=4, 1 => 5u8..=7],
+        prop_oneof![5 => Just(0u16), 4 => 1u16..30, 1 => 30u16..400, 1 => 400u16..2500],
+        prop_oneof![5 => Just(Protos::Both), 2 => Just(Protos::UdpOnly), 2 => Just(Protos::TcpOnly)],
+        any::<bool>(),
+    )
+        .prop_map(|(beh, busy, lat_ms, protos, trust_nx)| Server {
+            beh,
+            busy,
+            lat_ms,
+            protos,
+            trust_nx,
+        })
+}
+
+fn pool_case(silent_w: u32) -> impl Strategy<Value = PoolCase> {
+    let callers = prop_oneof![
+        3 => Just(vec![Caller { q: 0, start_ms: 0 }]),
+        4 => vec((0u8..3, prop_oneof![3 => Just(0u16), 1 => 1u16..50, 1 => 50u16..1500]).prop_map(|(q, start_ms)| Caller { q, start_ms }), 2..=5),
+    ];
+    (
+        vec(server(silent_w), 1..=4),
+        0u8..3,
+        prop_oneof![Just(1u8), Just(2), Just(4)],
+        prop_oneof![Just(1000u32), Just(2000), Just(5000)],
+        prop_oneof![Just(500u32), Just(2000)],
+        prop::bool::weighted(0.3),
+        callers,
+        prop::bool::weighted(0.3),
+    )
+        .prop_map(|(servers, strategy, num_concurrent_reqs, timeout_ms, connect_timeout_ms, case_rand, callers, later)| PoolCase {
+            servers,
+            strategy,
+            num_concurrent_reqs,
+            timeout_ms,
+            connect_timeout_ms,
+            case_rand,
+            callers,
+            later,
+        })
+}
+
+fn dedup_case() -> impl Strategy<Value = DedupCase> {
+    (pool_case(2), 2u8..=5).prop_map(|(base, k)| DedupCase { base, k })
+}
 
 pub fn check() -> Option<Check> {
-    None
+    // fault assignments with few silent servers (so that the liveness clause is exercised) and a
+    // second stream with many (deadline clause)
+    let faults = prop("fault_assignments", 300_000, 6_000_000, |_t: Tier| pool_case(1), run_faults);
+    let slow = prop("silent_servers_deadline", 150_000, 3_000_000, |_t: Tier| pool_case(8), run_faults);
+    let dedup = prop("deduplication", 150_000, 3_000_000, |_t: Tier| dedup_case(), run_dedup);
+    Some(Check {
+        id: "C18",
+        level: "exploration",
+        rule: "real NameServerPool::from_config on the simulated runtime in virtual time; 1..4 servers x behaviour {answer, NXDOMAIN trusted/untrusted, TC on UDP + {full, refused, reset, hang} on TCP, silent, io-error at send/recv/connect, reset/close mid-exchange, Busy x n then as before} x latency x {udp+tcp, udp, tcp} x ordering strategy x num_concurrent_reqs {1,2,4} x timeouts x 0x20 x 1..5 callers (identical/distinct, staggered) x optional later lookup; non-trivial = distinct scenario with >= 1 faulty and >= 1 answering server, or >= 2 callers; de-duplication: twin runs (1 caller vs k identical callers on fresh pools) compared exchange by exchange.",
+        assumptions: vec![
+            "liveness is asserted only where the pool's ordering cannot matter: no silent/hanging server, at least one reliably answering server, worst-case serial cost below the timeout",
+            "after a TC reply the lookup is TCP-only by design (ConnectionPolicy.disable_udp): a UDP-only healthy server is then not counted as healthy",
+            "a server that answers Busy more than 4 times exceeds the documented back-off (20+40+80+160 ms) and is counted as faulty",
+            "Busy is injected at the public ConnectionProvider boundary; all other faults are socket-level",
+            "an NXDOMAIN from a server trusted for negatives is a legitimate final result",
+            "per-server exchange counts of one vs k callers are compared for UserProvidedOrder and RoundRobin only (QueryStatistics starts from random SRTTs)",
+        ],
+        subs: vec![faults, slow, dedup],
+    })
 }
